@@ -51,3 +51,20 @@ Theorem C08_only_the_stored_key : forall O P c r, verify_auth_rec O P c = Ok r -
     o_verify O pk sch (acr_signature c) (acr_auth_data c ++ sha256 O (acr_client_data c)) = true.
 Proof. intros O P c r H. apply verify_auth_rec_sound in H. destruct H as [_ _ _ _ S]. exact S. Qed.
 Print Assumptions C08_only_the_stored_key.
+
+(* the stored key is read through the labels of its type only: whatever else the COSE map carries (kid 2, key_ops 4 with ANY content, Base IV 5, private labels) and in
+   whatever order, it decodes to the same key - so a credential whose key says key_ops = [sign] (seeded change C08_17) authenticates like any other *)
+Theorem C08_key_is_read_through_its_labels_only : forall key key' m m',
+  hd 0 key <> 4 -> hd 0 key' <> 4 -> key <> [] -> key' <> [] ->
+  parse_cbor key = Ok (CMap m) -> parse_cbor key' = Ok (CMap m') ->
+  (forall l, In l [L_KTY; L_ALG; L_CRV; L_X; L_Y; L_N; L_E] -> dict_get m' (CInt l) = dict_get m (CInt l)) ->
+  decode_credential_public_key key' = decode_credential_public_key key.
+Proof. exact decode_reads_its_labels_only. Qed.
+Print Assumptions C08_key_is_read_through_its_labels_only.
+
+(* non-vacuity: {1: 1, 3: -8, -1: 6, -2: h'07'} and the same key with key_ops = [1] ("sign") and a kid *)
+Example C08_key_ops_example :
+  decode_credential_public_key [166; 1; 1; 3; 39; 32; 6; 33; 65; 7; 4; 129; 1; 2; 65; 107] = decode_credential_public_key [164; 1; 1; 3; 39; 32; 6; 33; 65; 7]
+  /\ is_ok (decode_credential_public_key [164; 1; 1; 3; 39; 32; 6; 33; 65; 7]) = true.
+Proof. vm_compute. split; reflexivity. Qed.
+Print Assumptions C08_key_ops_example.
